@@ -433,7 +433,7 @@ func isWhole(w *world, seq []Seg) bool {
 // to a non-empty text: once the others have vanished (ReplaceAll removes every
 // occurrence of an empty one at once) what is left IS a whole-value reference.
 func (w *world) becomesWhole(seq []Seg, stack []string) bool {
-	n, nonEmpty := 0, 0
+	n := 0
 	for _, s := range seq {
 		if s.K == "lit" && s.T == "" {
 			continue
@@ -442,15 +442,24 @@ func (w *world) becomesWhole(seq []Seg, stack []string) bool {
 		if !isWhole(w, []Seg{s}) {
 			return false
 		}
+	}
+	if n < 2 {
+		return false
+	}
+	nonEmpty := 0
+	for _, s := range seq {
+		if s.K != "ref" {
+			continue
+		}
 		c := analyse(w.flatten([]Seg{s}, stack))
 		if c.ex != "" || c.err != "" {
-			return true // unknown: stay on the safe side
+			return true // unknown (e.g. "# ${undefined}" fails when spliced, but is a YAML null as a whole value)
 		}
 		if c.text != "" {
 			nonEmpty++
 		}
 	}
-	return n >= 2 && nonEmpty <= 1
+	return nonEmpty <= 1
 }
 
 // evalStr evaluates seq as a string with embedded references.
@@ -463,10 +472,14 @@ func (w *world) evalSeq(seq []Seg, stack []string, depth int) Res {
 	var r Res
 	if !isWhole(w, seq) {
 		c := w.evalStr(seq, stack)
-		if c.ex == "" && c.err == "" && w.becomesWhole(seq, stack) {
+		if c.ex == "" && w.becomesWhole(seq, stack) {
 			// "${empty}${x}": once the leading references have expanded to nothing the rest IS a
-			// whole-value reference; the statement does not say which reading applies
+			// whole-value reference; the statement does not say which reading applies (and a failure of
+			// the spliced reading need not happen in the whole-value reading)
 			c.ex = "becomes-whole-value"
+			if c.err != "" {
+				c.err, c.errMay = "", true
+			}
 		}
 		r.absorb(c, true, true)
 		r.Typed, r.Str = c.text, c.text
